@@ -435,6 +435,9 @@ impl Prop for C20 {
     let c = cal();
     match t {
       "solar" => {
+        // route equivalence of the objects this property reads (see routes.rs)
+        prop_run(env, out, "routes", env.tier.pick(1600, 64000) / nshards as u32, 8800 + shard as u64, crate::routes::date_strategy(), &ev);
+        out.set_exhaustive("routes", false);
         let lo = c.year_start[1900] as usize;
         let hi = c.year_start[2101] as usize;
         let (a, b) = shard_range(hi - lo, shard, nshards);
@@ -526,6 +529,7 @@ impl Prop for C20 {
       "ldate" => self.eval_ldate(env, out, case),
       "holiday" => self.eval_holiday(env, out, case),
       "hdate" => self.eval_hdate(env, out, case),
+      "routes" => crate::routes::compare_day_routes(env, out, "routes", case, (case.a[0].clamp(0, crate::model::NDAYS as i64 - 1)) as usize, &crate::routes::fields_c20),
       _ => panic!("unknown sub-check {}", sub),
     }
   }
